@@ -154,6 +154,9 @@ def make_details(items):
         elif ctype == "text":
             d[name] = Content(ContentType("text", "plain", {"charset": "utf8"}),
                               lambda t=text: [t.encode("utf8")])
+        elif ctype == "text-lines":
+            d[name] = Content(ContentType("text", "plain", {"charset": "utf8"}),
+                              lambda t=text: [lines_text(t).encode("utf8")])
         elif ctype == "override":
             # a Content SUBCLASS that overrides iter_bytes() (the documented way to serialise differently - here it
             # swaps the case of what the source yields): its text form is the text of THOSE bytes
@@ -173,8 +176,15 @@ def make_details(items):
     return d
 
 
+def lines_text(text):
+    """A log with every kind of line end in it: CRLF, a lone CR, a form feed, U+2028 - it is text, not lines."""
+    return "first\r\nsecond\rthird\x0c" + text + "\u2028last"
+
+
 def detail_bytes(text, ctype):
     """The bytes make_details() produces for one [name, text, ctype] item."""
+    if ctype == "text-lines":
+        return lines_text(text).encode("utf8")
     if ctype == "override":
         return text.encode("utf8").swapcase()
     if ctype == "text-split":
@@ -265,7 +275,7 @@ def random_test_spec(rng, i, tok, *, allow_no_start=False):
         items = []
         names = rng.sample(["foo", "log", "traceback", "bin", "traceback-1"], rng.randint(0, 3))
         for n in names:
-            items.append([n, tok("D"), "bin" if n == "bin" else rng.choice(["text", "text", "text-split", "override"])])
+            items.append([n, tok("D"), "bin" if n == "bin" else rng.choice(["text", "text", "text-split", "override", "text-lines"])])
         if outcome == "addSkip" and rng.random() < 0.7:
             items.append(["reason", tok("R"), "text"])
         spec["details"] = items
